@@ -288,3 +288,16 @@ func nearClassRuns(class string, f func([]byte)) {
 		}
 	}
 }
+
+// notJSONSpace: byte sequences that some notion of "space" accepts and JSON does not
+var notJSONSpace = []string{"\v", "\f", "\x00", "\x1c", "\x1d", "\x1e", "\x1f", "\x85", "\xa0", "\xc2\x85", "\xc2\xa0", "\xe1\x9a\x80", "\xe2\x80\x80", "\xe2\x80\xa8", "\xe2\x80\xa9",
+	"\xe2\x80\xaf", "\xe2\x81\x9f", "\xe3\x80\x80", "\xef\xbb\xbf", "\x7f", "\x08"}
+
+// aroundValues: every such sequence before, after and between the tokens of small documents
+func aroundValues(f func([]byte)) {
+	for _, sp := range notJSONSpace {
+		for _, d := range []string{"%s1", " %s1", "%s [1,2]", "1%s", "[1,%s2]", "[1%s,2]", "[%s]", `{%s"a":1}`, `{"a"%s:1}`, `{"a":%s1}`, `{"a":1%s}`, "%strue", "%s\"s\"", "null%s", "%s{}", "[[]%s]"} {
+			f([]byte(fmt.Sprintf(d, sp)))
+		}
+	}
+}
